@@ -15,6 +15,7 @@ import json
 
 from harness.common.ctx import Timeout, time_limit
 from harness.props import c13 as base
+base.NEAR_MISS_NAMES = False   # a clashing witness name would make a suggestion "fail outright" through the harness's own guess
 
 EXE = "c14_model"
 PROPS = ["Holpy.C14.Props", "Holpy.C14.Props2", "Holpy.C14.Props3", "Holpy.C14.Props4", "Holpy.C14.Props5"]
